@@ -67,6 +67,7 @@ def features(case):
     if c["val"] == 0: f.append("zero_validation_batches")
     if c["val"]: f.append("validation_loader")
     if c["ev"]: f.append("evaluator_" + c["ev"])
+    if c.get("ev_cb"): f.append("evaluator_metric_callbacks")
     if c["cb_train"]: f.append("on_train_epoch_callback")
     if c["cb_val"]: f.append("on_validation_epoch_callback")
     if c["rem"]: f.append("partial_last_batch")
@@ -163,7 +164,8 @@ class World:
         self.model = Net()
         self.trainer = Trainer(self.model, synapgrad)
         self.loss = LLoss(nn.CrossEntropyLoss() if mode == Evaluator.MULTI_CLASS else nn.MSELoss())
-        self.trainer.compile(self.loss, LSGD(self.model.parameters(), lr=0.05, momentum=0.5), LEvaluator(mode=mode) if mode else None)
+        self.trainer.compile(self.loss, LSGD(self.model.parameters(), lr=0.05, momentum=0.5), (LEvaluator(mode=mode, epoch_callback=lambda yt, yp: [("err", np.float64(np.mean(yt != yp)))], step_callback=lambda yt, yp: [("step_err", np.float64(np.mean(yt != yp)))])
+                                                                                                  if case.get("ev_cb") else LEvaluator(mode=mode)) if mode else None)
         self.train_loader = loader("train", case["n_train"], case["rem"] if bs > 1 else 0)
         self.val_loader = None if case["val"] is None else loader("val", case["val"], 0, (case["val"] - 1) if case["val_raises"] else None)
         self.test_loader = loader("test", 2 if case["val"] is None else case["val"], 0)
@@ -267,7 +269,7 @@ def run_fit(case, seed=0):
     if val_open is not None:
         ck(end_state == val_open, "Trainer.fit.validation_changes_no_state", "parameters / running statistics differ after the last validation")
     # ---- the history
-    want = ["loss"] + (["accuracy"] if c["ev"] else [])
+    want = ["loss"] + (["accuracy"] if c["ev"] else []) + (["err"] if c["ev"] and c.get("ev_cb") else [])      # step metrics are progress-bar only
     if c["val"] is not None:
         want += ["val_" + k for k in want]
     ck(isinstance(hist, dict), "Trainer.fit.history_one_entry_per_epoch", "fit returned %r" % type(hist).__name__)
@@ -288,6 +290,10 @@ def run_fit(case, seed=0):
         frac = float(np.mean(np.concatenate(yt) == np.concatenate(yp)))
         got = float(hist[k][ep]) if len(hist.get(k, [])) > ep else float("nan")
         ck(abs(got - frac) <= 1e-9, "Trainer.fit.epoch_accuracy_is_fraction_correct", "history[%r][%d] = %r, fraction of correct predictions = %r" % (k, ep, got, frac), which=k)
+        if c.get("ev_cb"):
+            k = "err" if ph == "train" else "val_err"
+            got = float(hist[k][ep]) if len(hist.get(k, [])) > ep else float("nan")
+            ck(abs(got - (1.0 - frac)) <= 1e-9, "Trainer.fit.history_every_metric_per_epoch", "history[%r][%d] = %r, the callback metric of that epoch is %r" % (k, ep, got, 1.0 - frac), which=k)
     return n, fails, _replay(case, log, hist)
 
 
